@@ -18,8 +18,8 @@ import (
 var (
 	// request side maps remote->local, response side local->remote (as the inbound server);
 	// the chain b->c, c->d checks that nothing is translated twice
-	reqMap  = map[string]string{"remote-ns": "local-ns", "ns-b": "ns-c", "ns-c": "ns-d"}
-	respMap = map[string]string{"local-ns": "remote-ns", "ns-c": "ns-b", "ns-d": "ns-c"}
+	reqMap   = map[string]string{"remote-ns": "local-ns", "ns-b": "ns-c", "ns-c": "ns-d"}
+	respMap  = map[string]string{"local-ns": "remote-ns", "ns-c": "ns-b", "ns-d": "ns-c"}
 	namePool = []string{"remote-ns", "local-ns", "ns-b", "ns-c", "ns-d", "other", "", "remote-ns-suffix", "REMOTE-NS", "remote", "x-remote-ns"}
 )
 
@@ -116,7 +116,13 @@ func TestNamespace(t *testing.T) {
 				}
 				msg := gen.New(r.md)
 				parent, f := gen.Descend(msg, bp)
+				// both encodings Temporal's serializer reads: proto3 and (every fourth case) JSON
 				blob := gen.EncodeEvents(evs)
+				enc := "proto3"
+				if (ei+len(bp.String()))%4 == 3 {
+					blob, enc = gen.EncodeEventsJSON(evs), "json"
+				}
+				counts["blob_event_cases_"+enc]++
 				if f.IsList() {
 					parent.Mutable(f).List().Append(protoreflect.ValueOfMessage(blob.ProtoReflect()))
 				} else {
